@@ -1118,6 +1118,199 @@ def equal_sets_pass(fail, rng, quick):
     return stats
 
 
+# ------------------------------------------------------------------------------- (F) renderings do not depend on what was called before
+
+
+def render_order_pass(fail, rng, quick):
+    """"the JSON and text renderings of a decoded object are deterministic functions of its bytes": every rendering
+    entry point with every option combination the encoders use is called on DECODED objects in several orders on the
+    same object (A then B, B then A, A twice, all of them shuffled), on objects handed out twice by the decoder's
+    own cache, and as UPDATE sequences through the API encoders; each (entry point, options) must give the string a
+    fresh decode of the same bytes gives when that entry point is the first thing called."""
+    import struct
+    from exabgp.bgp.message import Action
+    from exabgp.bgp.message.direction import Direction
+    from exabgp.bgp.message.open.capability.negotiated import Negotiated
+    from exabgp.bgp.message.update import UpdateCollection
+    from exabgp.bgp.message.update.attribute.collection import AttributeCollection
+    from exabgp.bgp.message.update.nlri.nlri import NLRI
+    from exabgp.bgp.neighbor import Neighbor
+    from exabgp.protocol.family import AFI, SAFI
+    from exabgp.protocol.ip import IP
+    from exabgp.reactor.api.response.json import JSON
+    from exabgp.rib.route import Route
+
+    stats = collections.Counter()
+    neg = Negotiated(Neighbor(), Direction.IN)
+    neg.families = [(AFI.ipv4, SAFI.unicast)]
+
+    def attr(flag, code, body):
+        return bytes([flag, code, len(body)]) + body
+
+    origin = attr(0x40, 1, b'\x00')
+    aspath = attr(0x40, 2, bytes([2, 2]) + struct.pack('!HH', 65001, 65002))
+    optional = [
+        attr(0x40, 3, bytes([10, 0, 0, 1])), attr(0x80, 4, struct.pack('!L', 50)), attr(0x40, 5, struct.pack('!L', 200)), attr(0x40, 6, b''),
+        attr(0xC0, 7, struct.pack('!L', 65001) + bytes([1, 2, 3, 4])), attr(0xC0, 8, struct.pack('!HHHH', 65001, 100, 65000, 7)),
+        attr(0x80, 9, bytes([9, 9, 9, 9])), attr(0x80, 10, bytes([1, 1, 1, 1, 2, 2, 2, 2])),
+        attr(0xC0, 16, bytes([0, 2, 0xFD, 0xE8, 0, 0, 0, 1])), attr(0xC0, 32, struct.pack('!LLL', 65000, 1, 2)), attr(0xC0, 0x99, b'\x01\x02'),
+    ]
+    attr_subjects = [origin + aspath + optional[0] + optional[1] + optional[5], origin + aspath + optional[1] + optional[5],
+                     origin + aspath + b''.join(optional)]
+    for _ in range(4 if quick else 40):
+        picks = [o for o in optional if rng.random() < 0.5]
+        attr_subjects.append(origin + aspath + b''.join(picks))
+
+    def check_subject(kind, describe, make, entries):
+        """make() -> a freshly decoded object; entries: [(name, fn)]"""
+        ref = {}
+        for name, fn in entries:
+            try:
+                ref[name] = fn(make())
+            except Exception as exc:
+                ref[name] = f'EXC {type(exc).__name__}'
+        names = [n for n, _ in entries]
+        fns = dict(entries)
+
+        def call(obj, name):
+            try:
+                return fns[name](obj)
+            except Exception as exc:
+                return f'EXC {type(exc).__name__}'
+
+        def judge(history, obj, name):
+            got = call(obj, name)
+            stats[kind + ':calls'] += 1
+            if got != ref[name]:
+                fail(f'rendering-depends-on-history:{kind}:{name}',
+                     'a rendering of a decoded object is not what a fresh decode of the same bytes gives: it depends on what was rendered before',
+                     dict(describe, entry_point=name, called_before=history, got=str(got)[:400], fresh=str(ref[name])[:400]))
+            return got
+
+        for first in names:
+            for second in names:
+                obj = make()
+                judge([], obj, first)
+                judge([first], obj, second)
+                judge([first, second], obj, first)
+        order = names * 2
+        rng.shuffle(order)
+        obj = make()
+        done = []
+        for name in order:
+            judge(list(done), obj, name)
+            done.append(name)
+
+    attr_entries = [
+        ('json()', lambda a: a.json()), ('json(include_nexthop=True)', lambda a: a.json(include_nexthop=True)),
+        ('json(generic=True)', lambda a: a.json(generic=True)), ('json(include_nexthop=True,generic=True)', lambda a: a.json(include_nexthop=True, generic=True)),
+        ('repr', lambda a: repr(a)), ('str', lambda a: str(a)), ('index()', lambda a: a.index().hex()),
+    ]
+    for data in attr_subjects:
+        desc = {'attributes': data.hex()}
+        check_subject('attributes', desc, lambda data=data: AttributeCollection().parse(data, neg), attr_entries)
+        stats['attribute_sets'] += 1
+        # the decoder's own cache hands the same object to consecutive identical attribute blocks: interleave
+        ref = {n: f(AttributeCollection().parse(data, neg)) for n, f in attr_entries}
+        for first, f1 in attr_entries:
+            for second, f2 in attr_entries:
+                AttributeCollection.unpack(origin + aspath, neg)  # something else in between resets "previous"
+                o1 = AttributeCollection.unpack(data, neg)
+                f1(o1)
+                o2 = AttributeCollection.unpack(data, neg)
+                got = f2(o2)
+                stats['attributes-cache:calls'] += 1
+                if got != ref[second]:
+                    fail(f'rendering-depends-on-history:attributes-unpack-cache:{second}',
+                         'the same attribute bytes decoded twice in a row render differently the second time, depending on what was rendered after the first decode',
+                         dict(desc, entry_point=second, called_on_first_decode=first, same_object=o1 is o2, got=str(got)[:400], fresh=str(ref[second])[:400]))
+
+    # NLRIs and routes decoded from bytes
+    nlri_entries = [
+        ('str', lambda n: str(n)), ('repr', lambda n: repr(n)), ('extensive()', lambda n: n.extensive()), ('json()', lambda n: n.json()),
+        ('json(compact=True)', lambda n: n.json(compact=True)), ('json(announced=False)', lambda n: n.json(announced=False)),
+        ('v4_json()', lambda n: n.v4_json()), ('v4_json(nexthop)', lambda n: n.v4_json(nexthop=IP.from_string('10.0.0.1'))),
+        ('index()', lambda n: n.index().hex()),
+    ]
+    route_entries = [('extensive()', lambda r: r.extensive()), ('repr', lambda r: repr(r)), ('index()', lambda r: r.index().hex()),
+                     ('nlri.json()', lambda r: r.nlri.json()), ('attributes.json()', lambda r: r.attributes.json()),
+                     ('attributes.json(include_nexthop=True)', lambda r: r.attributes.json(include_nexthop=True))]
+    n_nlri = 0
+    while n_nlri < (12 if quick else 200):
+        v = gen_value(rng)
+        try:
+            o = build(v)
+        except Exception:
+            continue
+        addpath = v['pid'] is not None
+        wire = bytes(o.pack_nlri(NEG[addpath]))
+        afi, safi = AFI.from_int(v['afi']), SAFI.from_int(v['safi'])
+
+        def make_nlri(wire=wire, afi=afi, safi=safi, addpath=addpath):
+            return NLRI.unpack_nlri(afi, safi, wire, Action.ANNOUNCE, addpath, NEG[addpath])[0]
+
+        try:
+            make_nlri()
+        except Exception:
+            continue
+        n_nlri += 1
+        desc = {'family': f'{afi}/{safi}', 'nlri': wire.hex(), 'addpath': addpath}
+        check_subject('nlri', desc, make_nlri, nlri_entries)
+        adata = attr_subjects[n_nlri % len(attr_subjects)]
+        check_subject('route', dict(desc, attributes=adata.hex()),
+                      lambda make_nlri=make_nlri, adata=adata: Route(make_nlri(), AttributeCollection().parse(adata, neg), nexthop=IP.from_string('10.0.0.1')),
+                      route_entries)
+    stats['nlris'] = n_nlri
+
+    # UPDATE sequences through the API encoders (v6 and v4 JSON, both attribute formats)
+    def update(withdrawn, attributes, nlri):
+        return struct.pack('!H', len(withdrawn)) + withdrawn + struct.pack('!H', len(attributes)) + attributes + nlri
+
+    def prefix(a, b, c):
+        return bytes([24, a, b, c])
+
+    encoders = []
+    for version in ('6.0.0', '4.0.0'):
+        for generic in (False, True):
+            try:
+                enc = JSON(version)
+                enc.generic_attribute_format = generic
+                encoders.append((f'JSON({version},generic={generic})', enc))
+            except Exception:
+                pass
+    unrelated = update(b'', origin + aspath + attr(0x40, 3, bytes([10, 0, 0, 2])), prefix(100, 64, 0))
+    for adata in attr_subjects[: (4 if quick else 20)]:
+        family = {
+            'announce': update(b'', adata, prefix(203, 0, 113)),
+            'withdraw+announce': update(prefix(192, 0, 2), adata, prefix(198, 51, 100)),
+            'announce-other-prefix': update(b'', adata, prefix(198, 51, 100)),
+            'withdraw-only-with-attributes': update(prefix(192, 0, 2), adata, b''),
+        }
+        for ename, enc in encoders:
+            def render(data, enc=enc):
+                try:
+                    return enc._update(UpdateCollection.unpack_message(data, neg))['message']
+                except Exception as exc:
+                    return f'EXC {type(exc).__name__}: {exc}'[:200]
+
+            ref = {}
+            for name, data in family.items():
+                render(unrelated)
+                ref[name] = render(data)
+            for n1, d1 in family.items():
+                for n2, d2 in family.items():
+                    render(unrelated)
+                    render(d1)
+                    got = render(d2)
+                    stats['update:calls'] += 1
+                    if got != ref[n2]:
+                        fail(f'rendering-depends-on-history:update:{ename.split("(")[0]}',
+                             'the API rendering of an UPDATE depends on the UPDATE that was decoded and rendered before it',
+                             {'encoder': ename, 'update': d2.hex(), 'update_kind': n2, 'previous_update': d1.hex(), 'previous_kind': n1,
+                              'got': got[:500], 'alone': ref[n2][:500]})
+    return stats
+
+
 # ------------------------------------------------------------------------------- the check
 
 
@@ -1630,6 +1823,22 @@ def check(tier, seed):
 
         run.obligation('decoded-equal-sets pass ran', False, traceback.format_exc()[-1500:])
 
+    # ---------------------------------------------------------------- (F) renderings do not depend on the call history
+    n_f = 0
+    try:
+        fstats = render_order_pass(fail, rng, quick)
+        n_f = sum(v for k, v in fstats.items() if k.endswith(':calls'))
+        run.coverage['rendering_history'] = dict(fstats, rule='every rendering entry point x option combination (AttributeCollection.json with '
+                                                 'include_nexthop / generic, repr, str, index; NLRI str, repr, extensive, json with compact / announced, v4_json; '
+                                                 'Route extensive, repr, index) on decoded objects in all ordered pairs + a shuffled long sequence, on objects '
+                                                 'handed out twice by AttributeCollection.unpack, and UPDATE pairs (announce, withdraw+announce, withdraw only, same '
+                                                 'attribute bytes) through the v6 and v4 JSON encoders in both attribute formats; reference = fresh decode, first call')
+        run.obligation(f'rendering-history pass ran ({n_f} renderings judged against a fresh decode)', n_f >= 2000, f'{dict(fstats)}')
+    except Exception:
+        import traceback
+
+        run.obligation('rendering-history pass ran', False, traceback.format_exc()[-1500:])
+
     # ---------------------------------------------------------------- (D) VPLS / RTC / EVPN framing / attribute values
     try:
         t4 = time.time()
@@ -1667,7 +1876,7 @@ def check(tier, seed):
     total_fail = sum(oracle_fail.values())
     run.obligation(
         f'property oracle on the real objects: round trips ({n_oracle} prefix NLRIs, {n_b} configured routes, {n_t} text routes), '
-        f'{n_c} boundary-length objects, eq => index/hash ({n_eq} constructed pairs, {n_e} pairs of decoded attribute sets), index injectivity ({n_coll} objects incl. {len(pairs)} near-colliding pairs), rendering determinism',
+        f'{n_c} boundary-length objects, eq => index/hash ({n_eq} constructed pairs, {n_e} pairs of decoded attribute sets), index injectivity ({n_coll} objects incl. {len(pairs)} near-colliding pairs), rendering determinism incl. {n_f} renderings in varied call orders',
         total_fail == 0, f'{total_fail} failing checks: {dict(oracle_fail)}')
 
     # ---------------------------------------------------------------- coverage
